@@ -64,6 +64,10 @@ func PutStream(ctx context.Context, store WritableStorage) (io.Writer, func(key 
 			return fmt.Errorf("WriteCommitter already used")
 		}
 		written = true
+		if key == "" {
+			// The zero string means "abort": store nothing (see StreamingWritableStorage).
+			return nil
+		}
 		return store.Put(ctx, key, buf.Bytes())
 	}, nil
 }
